@@ -30,49 +30,46 @@ def c01_runs(tier):
     add(1, 32, 0, 'b2', p='X')
     add(0, 1, 1, 'XX', bound=3)
     if not quick:
+        # ---- bound 2 on the smallest shapes, bound 3 for n=1 with one producer (first: they are what thorough adds)
+        add(1, 1, 0, 'X', bound=2, budget=300)
+        add(1, 32, 0, 'X', bound=2, budget=300)
+        add(1, 1, 0, 'b2s', bound=2, budget=200)
+        add(1, 1, 1, 'b2s', bound=2, budget=200)
+        add(1, 1, 0, 'b2', bound=3, budget=400)
+        add(1, 32, 0, 'q', bound=3, budget=400)
+        add(1, 1, 0, 'q', p='s', bound=2, budget=300)
+        add(2, 1, 0, 's', bound=2, budget=300)
+        add(1, 1, 0, 's', t1='q', bound=2, budget=400)
+        # ---- wider program families at bound 1
         for mult, poll in ((32, 0), (1, 1)):
             add(1, mult, poll, 'XX')
-        add(1, 1, 0, 'X', t1='X', budget=400)      # every pair of single submissions from two external producers
-        add(1, 32, 0, 'X', t1='X', budget=400)
+        add(1, 1, 0, 'X', t1='X', budget=300)      # every pair of single submissions from two external producers
         add(1, 1, 1, 'X', t1='q', budget=150)
         add(1, 1, 0, 'b2s', t1='X', budget=200)
         add(1, 32, 0, 'X', p='X')
         add(1, 1, 0, 'q', p='XX', budget=200)
         add(1, 1, 0, 's', t1='q', p='X', budget=200)
         add(1, 1, 1, 'b2', p='X')
-        for mult in (1, 32):
-            add(2, mult, 0, 'XX', budget=400)
-        add(2, 1, 1, 'b3X', budget=200)
-        add(2, 1, 0, 'X', t1='q', budget=400)
-        add(2, 1, 0, 'b3', t1='X', budget=400)
-        add(2, 1, 0, 'b3', p='s', budget=300)
-        add(2, 1, 0, 'b3', p='X', budget=400)
-        add(2, 1, 0, 's', t1='q', p='s', budget=200)
-        add(2, 32, 0, 's', t1='q', budget=300)
+        add(2, 1, 0, 'sX', budget=300)
         add(2, 1, 0, 'b3X', budget=300)
+        add(2, 1, 1, 'b3s', budget=200)
+        add(2, 32, 0, 's', t1='q', budget=300)
+        add(2, 1, 0, 'b3', t1='s', budget=300)
+        add(2, 1, 0, 'b3', p='s', budget=300)
         add(0, 1, 0, 'XX', t1='X', p='X', bound=2, budget=200)
-        add(0, 32, 0, 'XX', t1='XX', p='X', bound=1, budget=200)
-        # ---- bound 2 on the smallest shapes, bound 3 for n=1 with one producer
-        for mult in (1, 32):
-            add(1, mult, 0, 'X', bound=2, budget=300)
-        add(1, 1, 0, 'b2X', bound=2, budget=400)
-        add(1, 1, 1, 'b2s', bound=2, budget=200)
-        add(1, 1, 0, 's', t1='q', bound=2, budget=500)
-        add(1, 1, 0, 'q', p='s', bound=2, budget=400)
-        add(2, 1, 0, 's', bound=2, budget=400)
-        add(2, 1, 0, 'b3s', bound=2, budget=500)
-        add(1, 1, 0, 'b2', bound=3, budget=500)
-        add(1, 32, 0, 'q', bound=3, budget=500)
-        add(1, 1, 0, 'b2s', bound=3, budget=600)
-    # ---- further sanitizer legs
-    if not quick:
+        # ---- further sanitizer legs
         add(1, 1, 0, 'b2s', t1='q', bound=1, mode='tsan', budget=200)
-        add(2, 1, 0, 'b3s', bound=1, mode='tsan', budget=200)
         add(1, 32, 1, 'sq', t1='b2', bound=1, mode='asan', budget=200)
+        # ---- the largest ones last (cut first when the machine is loaded)
+        add(1, 32, 0, 'X', t1='X', budget=400)
+        add(2, 1, 0, 'b3s', bound=2, budget=400)
+        add(1, 1, 0, 'b2s', bound=3, budget=400)
+        add(2, 32, 0, 'XX', budget=400)
+        add(2, 1, 0, 'X', t1='q', budget=400)
     return runs
 
 
-reg('C01', level='model_checking', runs=c01_runs, quick_budget_s=400, thorough_budget_s=2400,
+reg('C01', level='model_checking', runs=c01_runs, quick_budget_s=400, thorough_budget_s=1800,
     technique='stateless model checking of the real ThreadPool: every interleaving (up to a deviation bound) of 1-2 external producer threads, an optional pool-thread producer, the workers and the destructor drain; per-functor invocation counters',
     level_text='Pools of 0, 1 and 2 threads, poolLoadMultiplier 1 and 32, signalling-wake and polling mode; producers run programs of <= 2 submissions over {schedule(f), schedule(f, ForceQueuingTag), scheduleBulk(k, gen) k=1..3}: every such program for one producer (programs are chosen inside the run by exhaustive data nondeterminism), single submissions and selected programs for two external producers, and a task running on a pool thread as a further producer; then T0 destroys the pool. Quick: every interleaving with <= 1 deviation; thorough: the wider program sets at bound 1, bound 2 on the smallest shapes (n=1 one producer, n=1 two producers, n=2 one producer) and bound 3 for n=1 with one producer. Oracle: each functor ran exactly once when ~ThreadPool returns and none starts afterwards; a functor that never runs leaves its counter at 0, a parked destructor is a deadlock verdict. Path markers (which thread ran the functor) must show inline execution by schedule and by scheduleBulk, execution by a worker from the central queue (single and bulk enqueue), inline execution on a pool thread, and the destructor\'s own drain.',
     level_note='SC interleavings; the locality and steal rings are not reachable through the three public ThreadPool entry points of the statement (only through task sets, see C02/C03/C08), so they stay empty here; TSan and ASan legs on two (thorough: four) small shapes.',
